@@ -1163,7 +1163,21 @@ def stream_keys(ctx, families):
 # ------------------------------------------------------------------------------- run
 
 
+def _cleanup_tmp():
+    import shutil
+
+    while _TMP:
+        shutil.rmtree(_TMP.pop(), ignore_errors=True)
+
+
 def run(ctx):
+    try:
+        _run(ctx)
+    finally:
+        _cleanup_tmp()
+
+
+def _run(ctx):
     from .. import core
 
     rng = ctx.rng
@@ -1505,7 +1519,10 @@ def replay(ctx, payload):
     if "schedule" in case:
         job = dict(family=case["family"], seqs=[], mixed=[], maxsize=case["maxsize"], seed=0,
                    schedules=[case["schedule"]], stress=dict(threads=[], per_thread=0, seed=0), helper_rounds=0)
-        r = _collect(_launch(job, case["maxsize"], "replay"), 120)
+        try:
+            r = _collect(_launch(job, case["maxsize"], "replay"), 120)
+        finally:
+            _cleanup_tmp()
         got = r["schedules"][0] if r["schedules"] else {}
         print("observed", json.dumps(got)[:1500])
         bad = any(x is not None for x in got.get("raised", [])) or any(
